@@ -1096,6 +1096,28 @@ func (u *Unit) loopEnv(f *Frame, st *State, fn *ssa.Function, header int) *SpecE
 		}
 		vars[name] = Val{T: t, Ty: b.c.ty}
 	}
+	for name, v := range f.heapLocals {
+		if _, ok := vars[name]; !ok {
+			vars[name] = v
+		}
+	}
+	// the range index of THIS loop is the one its header block loads
+	if header >= 0 && header < len(fn.Blocks) {
+		for _, ins := range fn.Blocks[header].Instrs {
+			if un, ok := ins.(*ssa.UnOp); ok && un.Op == token.MUL {
+				if al, ok := un.X.(*ssa.Alloc); ok && al.Comment == "rangeindex" {
+					if c, ok := f.cells[al]; ok {
+						t, ok := st.cells[c]
+						if !ok {
+							t = "(- 1)"
+						}
+						vars["rangeindex"] = Val{T: t, Ty: c.ty}
+					}
+					break
+				}
+			}
+		}
+	}
 	if ri, ok := vars["rangeindex"]; ok {
 		vars["rangeidx"] = Val{T: fmt.Sprintf("(+ %s 1)", ri.T), Ty: types.Typ[types.Int]}
 	}
